@@ -257,6 +257,8 @@ CALLBACKS = {
     "setnext": ("iter", "if (i + 1 < arr.length) arr[i + 1] = 'z'; return v;", True, False),
     "splicer": ("iter", "if (i === 0) arr.splice(0, 1); return v;", True, False),
     "trunc": ("iter", "arr.length = 1; return true;", True, False),
+    "trunc0": ("iter", "arr.length = 0; return false;", True, False),
+    "shifter": ("iter", "if (arr.length > 1) arr.shift(); return i > 1;", True, False),
     "throw1": ("iter", "if (i === 1) throw new RangeError('boom'); return v;", False, True),
     "throwp": ("iter", "throw 7;", False, True),
     "rsum": ("red", "return (typeof acc === 'number' ? acc : 0) * 10 + i + (typeof v === 'number' && v === v ? v : 0.5);", False, False),
@@ -265,6 +267,10 @@ CALLBACKS = {
     "rpop": ("red", "arr.pop(); return v;", True, False),
     "rpush": ("red", "if (arr.length < 7) arr.push(i); return i;", True, False),
     "rthrow": ("red", "if (i === 1) throw new TypeError('t'); return acc;", False, True),
+    # the callback removes elements that are still to come (upward) / leaves only lower ones (downward)
+    "rtrunc": ("red", "arr.length = 1; return i;", True, False),
+    "rsplice": ("red", "if (arr.length > 2) arr.splice(1, 2); return i;", True, False),
+    "rshift": ("red", "if (arr.length > 1) arr.shift(); return (typeof acc === 'number' ? acc : 0) + i;", True, False),
     "cnum": ("cmp", "var p = key(x), q = key(y); return p < q ? -1 : (p > q ? 1 : 0);", False, False),
     "cdesc": ("cmp", "var p = key(x), q = key(y); return p < q ? 1 : (p > q ? -1 : 0);", False, False),
     "cfrac": ("cmp", "return (key(x) - key(y)) / 4;", False, False),
@@ -342,6 +348,13 @@ def callback_model(name, ctx, logging=True):
         if name == "trunc":
             R.length_write(arr, 1.0)
             return True
+        if name == "trunc0":
+            R.length_write(arr, 0.0)
+            return False
+        if name == "shifter":
+            if len(arr.items) > 1:
+                del arr.items[0:1]
+            return i > 1
         if name == "throw1":
             if i == 1:
                 raise R.Throw(R.ErrObj("RangeError"))
@@ -372,6 +385,17 @@ def callback_model(name, ctx, logging=True):
             if i == 1:
                 raise R.Throw(R.ErrObj("TypeError"))
             return acc
+        if name == "rtrunc":
+            R.length_write(arr, 1.0)
+            return i
+        if name == "rsplice":
+            if len(arr.items) > 2:
+                del arr.items[1:3]
+            return i
+        if name == "rshift":
+            if len(arr.items) > 1:
+                del arr.items[0:1]
+            return (acc if is_num(acc) else 0.0) + i
         raise KeyError(name)
 
     calls = [0]
